@@ -1,0 +1,21 @@
+//go:build verif
+
+package tlcp
+
+// Hooks for the C12 check (call-level behaviour of Conn). Add-only; compiled only with -tags verif.
+
+import "sync/atomic"
+
+// VerifSendAlert protects and writes one alert record (level, description) with the connection's
+// current write state, whatever the level, without touching the connection's error latches.
+func VerifSendAlert(c *Conn, level, description uint8) error {
+	return VerifRxWriteRecord(c, uint8(recordTypeAlert), []byte{level, description})
+}
+
+// VerifConnFlags reports the latches the call-level model tracks: handshake complete, a handshake
+// error is stored, in.err / out.err set, closeNotifySent, the Close bit of activeCall.
+// Call it only while no other goroutine is inside the connection.
+func VerifConnFlags(c *Conn) (hsDone, hsErr, inErr, outErr, cnSent, closed bool) {
+	return c.handshakeComplete(), c.handshakeErr != nil, c.in.err != nil, c.out.err != nil,
+		c.closeNotifySent, atomic.LoadInt32(&c.activeCall)&1 != 0
+}
